@@ -252,7 +252,7 @@ func groupWorkers(c *Ctx) map[string]*ssa.Function {
 			if call, ok := in.(*ssa.Call); ok {
 				if cal := staticCallee(&call.Call); cal != nil && fname(cal) == "spawn" && len(call.Call.Args) == 2 {
 					if w := resolveFuncValue(call.Call.Args[1], 0); w != nil {
-						out[n] = w
+						out[n] = thinLiteralTarget(w)
 					}
 				}
 			}
@@ -443,11 +443,11 @@ func ruleGroupTrigger(c *Ctx, r *R) {
 		}
 		// channel c: make(chan struct{}, 1)
 		var mk *ssa.MakeChan
-		instrs(fn, func(b *ssa.BasicBlock, i int, in ssa.Instruction) {
-			if m, ok := in.(*ssa.MakeChan); ok {
+		for _, d := range deepInstrs(fn, 2) { // possibly made by a small constructor (newTriggerChan())
+			if m, ok := d.in.(*ssa.MakeChan); ok && chanElemIsEmptyStruct(m.Type()) {
 				mk = m
 			}
-		})
+		}
 		r.ok(mk != nil && isConstInt(mk.Size, 1), "xsync.Group."+n+"|trigger-chan-capacity", fn.Pos(), "the trigger channel must have capacity exactly 1: 0 loses a trigger that arrives while f runs, more than 1 queues redundant runs")
 		var trigCell *ssa.Alloc
 		if mk != nil && mk.Referrers() != nil {
@@ -459,11 +459,32 @@ func ruleGroupTrigger(c *Ctx, r *R) {
 				}
 			}
 		}
+		isMk := func(v ssa.Value) bool {
+			if mk == nil {
+				return false
+			}
+			mks := madeChans(v)
+			return len(mks) == 1 && mks[mk]
+		}
+		if trigCell == nil && mk != nil {
+			// the variable of fn that holds the constructor's result
+			instrs(fn, func(_ *ssa.BasicBlock, _ int, in ssa.Instruction) {
+				if st, ok := in.(*ssa.Store); ok {
+					if al, ok := st.Addr.(*ssa.Alloc); ok && al.Parent() == fn && isMk(st.Val) {
+						trigCell = al
+					}
+				}
+			})
+		}
 		// the returned function: single non-blocking send on c
 		var trig *ssa.Function
+		var trigRecv ssa.Value // for a method value (c.fire): the receiver it is bound to
 		instrs(fn, func(b *ssa.BasicBlock, i int, in ssa.Instruction) {
 			if ret, ok := in.(*ssa.Return); ok && len(ret.Results) == 1 {
 				trig = resolveFuncValue(ret.Results[0], 0)
+				if f2, rv := funcAndReceiver(ret.Results[0]); f2 != nil && rv != nil {
+					trig, trigRecv = origin(f2), rv
+				}
 			}
 		})
 		okTrig := false
@@ -479,6 +500,10 @@ func ruleGroupTrigger(c *Ctx, r *R) {
 				for _, op := range chanOpsOf(f) {
 					nOps++
 					if op.kind == "select" && !op.blocking && len(op.arms) == 1 && op.arms[0].send && (loadCell(argOf(op.arms[0].ch, di.calls)) == trigCell || (mk != nil && resolveVal(argOf(op.arms[0].ch, di.calls)) == ssa.Value(mk))) {
+						okTrig = true
+					}
+					// the method value's receiver IS the channel (func (c triggerChan) fire())
+					if op.kind == "select" && !op.blocking && len(op.arms) == 1 && op.arms[0].send && trigRecv != nil && len(trig.Params) > 0 && op.arms[0].ch == ssa.Value(trig.Params[0]) && f == trig && isMk(trigRecv) {
 						okTrig = true
 					}
 				}
@@ -500,12 +525,22 @@ func ruleGroupTrigger(c *Ctx, r *R) {
 		why := ""
 		isTrigChan := func(v ssa.Value, chain []*ssa.Call) bool {
 			ls := valueLeaves(v, chain, 0)
+			all := len(ls) > 0 && mk != nil
 			for _, lf := range ls {
 				if lf.v != ssa.Value(mk) {
-					return false
+					all = false
 				}
 			}
-			return len(ls) > 0 && mk != nil
+			if all {
+				return true
+			}
+			// the worker is a named method that is handed the channel as a parameter
+			if mks := madeChans(v); len(mks) == 1 && mk != nil {
+				if mm, ok := ssa.Value(mk).(*ssa.MakeChan); ok && mks[mm] {
+					return true
+				}
+			}
+			return false
 		}
 		var frames []deepFrame
 		for _, g := range withAnon(w) {
@@ -658,3 +693,32 @@ var _ = late(func() {
 			}
 		}})
 })
+
+// thinLiteralTarget: a function literal whose whole body is one call of an in-package function or method
+// (g.spawn(func() { g.runPeriodicOrTriggered(interval, jitter, c, f) })) stands for that function.
+func thinLiteralTarget(w *ssa.Function) *ssa.Function {
+	if len(w.Blocks) != 1 {
+		return w
+	}
+	var only *ssa.Call
+	for _, in := range w.Blocks[0].Instrs {
+		switch x := in.(type) {
+		case *ssa.Call:
+			if only != nil {
+				return w
+			}
+			only = x
+		case *ssa.Return, *ssa.UnOp, *ssa.DebugRef, *ssa.FieldAddr, *ssa.MakeInterface, *ssa.ChangeType:
+		default:
+			return w
+		}
+	}
+	if only == nil {
+		return w
+	}
+	cal := staticCallee(&only.Call)
+	if cal == nil || cal.Blocks == nil || cal.Parent() != nil || rootFn(origin(cal)).Pkg != rootFn(w).Pkg {
+		return w
+	}
+	return origin(cal)
+}
